@@ -160,6 +160,24 @@ def impl_decode(t, b, with_header):
         return ("other", "%s: %s" % (type(ex).__name__, str(ex)[:200]))
 
 
+def _scribble(o) -> None:
+    """Caller-side modification of a decoded object, in place and as deep as it goes."""
+    if isinstance(o, dict):
+        for k in list(o):
+            _scribble(o[k])
+            if isinstance(o[k], (int, float)) and not isinstance(o[k], bool):
+                o[k] = 77
+            elif isinstance(o[k], bool):
+                o[k] = not o[k]
+        o["scribbled_by_the_caller"] = 1
+    elif isinstance(o, list):
+        for i, x in enumerate(o):
+            _scribble(x)
+            if isinstance(x, (int, float)) and not isinstance(x, bool):
+                o[i] = 77
+        o.append("scribbled")
+
+
 def check_alias(case, R: engine.Acc):
     g, a, b = case["alias"]
     da, db = ALIAS_GROUPS[g][a], ALIAS_GROUPS[g][b]
@@ -218,6 +236,14 @@ def check_case(case, R: engine.Acc):
                 V_("spurious-reject:" + got[1], "every byte string the Specification can decode is decoded (zero extension / truncation)", got[1], repr(exp[1])[:300])
                 continue
             R.outcome("decoded-" + cls)
+            if idx % 5 == 0 and C.same(got[1], exp[1]):
+                # the returned object is the CALLER's: whatever the caller does to it must not show up in a later decoding
+                _scribble(got[1])
+                again = impl_decode(t, b, with_header)
+                if again[0] != "ok" or not C.same(again[1], exp[1]):
+                    V_("result-shares-state-with-earlier-result", "deserialize(T, b) depends on T and b only: modifying a previously returned object does not change later results", repr(again)[:300], repr(exp[1])[:300])
+                    continue
+                got = again
             if not C.same(got[1], exp[1]):
                 V_("decoded-value-" + cls, "decoded object equals the Specification's decoding (zero extension, truncation, bounded sub-objects)", repr(got[1])[:400], repr(exp[1])[:400])
                 continue
